@@ -180,7 +180,7 @@ def proj_sync_pods(case, o):
 SY_L1 = " || sync: the same predicate re-checked on the calls the REAL pod control issues inside a whole sync (" + SY_RULE + ")"
 
 PROPS = {
-    "C02": {"module": "Asts.Props.C02",
+    "C02": {"module": "Asts.Props.C02", "extra_modules": ["Asts.Props.EditHistory"],
             "assumptions": ["quiescence (a Final world is silent, stays Final for ever) and invariance of the premises under settle and under a round with ANY fault plan are proved for all worlds. Convergence: C02_converges proves, for every world inside the monitor's premise wfWorld that also satisfies the decidable extraMB, `exists n <= roundBound i, Final (roundsN n i)` — both policies, the legacy-boundary mode (RollingUpdate without a rollingUpdate block), the normalising first rounds (adoption of pods and revisions, creation / renumbering of the update revision) and worlds holding pod objects that are not members of the set (label carriers, foreign pods, non-member orphans) included; the bound is the one the run-time monitor uses. extraMB = hashing premises (hashOkB: a visible revision records the template or the probe walk ends on a free name within |store|+8 probes having passed only revisions that record something else; labelsOkB: no unparsable hash label next to a mismatching parsable one; both NECESSARY: label_mismatch_never_quiet, degenerate_hashing_never_converges, equalRevision_not_transitive_quiet_not_final are proved counterexamples — a listed revision whose hash label was tampered with keeps every sync writing; the real hash makes the name determine the label) + spec.replicas set, storage of every member matches, one member per ordinal (outside these the model never reaches Final) + facts about API objects the model's independent fields do not enforce (pod names and revision names pairwise distinct, no non-member under the canonical name of a desired ordinal) + model encoding (no colon in the set's name; sizes within the id scheme: non-members + members outside the desired set + replicas <= 10^6). All generated wfWorld worlds (4325 of 4325 sampled by the prover) lie inside extraMB; worlds outside it are judged by the monitors only. The theorems named ..._partial are the earlier stages (normal worlds, legacy mode, all-member worlds), kept because the final theorem is built on them",
                             "the fairness premise is the executable `settle` (caches = API, terminating pods gone, every pod that can be is Running and Ready) between reconciles; arbitrary interleavings with lagging caches are not modelled",
                             "premises (wfWorld): valid spec, not paused, not being deleted, well-formed slots, member pods canonically named, matching and not foreign-owned, no Failed/Succeeded pod outside the desired set under OrderedReady, no invisible revision on a probed name; findings of the proof: the eight-probe clause is not inductive (RevProbeFree is), a constant hash function defeats convergence (hashing premise needed)"], "runs": [wo(proj=proj_world_all), sy(quick=4000, proj=proj_sync_all), rc(quick=15000, thorough=150000, proj=lambda c, o: (creates(o), o.get("tplbad")))],
@@ -190,7 +190,7 @@ PROPS = {
     "C10": {"module": "Asts.Props.C10", "assumptions": ["C10_revs: names are unique in the revision store (one API namespace; the monitor looks a written revision up by name)", "C10_pods: pod names are unique; the ordinal recorded for a pod is the one its name shows; every pod the set may claim (member, matching, not controlled by another owner) has its canonical name S-<ordinal> -- without it the identity fix of a zero-padded claimed pod (web-03) addresses its Update to web-3, which may be another owner's pod (upstream quirk, example exQuirk in Props/C10.lean; the run-time monitor carries the same precondition)", "'objects read from caches are left unmodified' is Go aliasing: monitored by the engine (C10.cache: deep comparison of every cached object before / after each sync), not proved"], "runs": [sy(proj=proj_sync_owner)], "rule": SY_RULE},
     "C11": {"module": "Asts.Props.C11", "extra_modules": ["Asts.Props.Glue2"], "assumptions": ["C11_deleting (store half): names are unique in the revision store (the monitor looks every input revision up by name; example exDup in Props/C11.lean)", "'resumes and converges to the same result as if it had never been paused': a paused round changes nothing in the API state (paused_round), so un-pausing resumes from the same state and C02 applies"], "runs": [sy(proj=proj_sync_c11)], "rule": SY_RULE},
     "C13": {"module": "Asts.Props.C13", "assumptions": ["headline C13_monitor_true_on_model: store names distinct, pod names distinct, no colon in a store or pod name (Kubernetes names never contain one)", "revisionHistoryLimit present (the CRD defaults it; nil is the modelled panic of truncateHistory, unreachable for admitted objects)"], "runs": [sy(proj=proj_sync_history)], "rule": SY_RULE},
-    "C03": {"module": "Asts.Props.C03", "extra_modules": ["Asts.Props.Glue", "Asts.Props.EditAlgebra"], "runs": [rc(proj=proj_deletes), sy(quick=5000, thorough=60000, proj=proj_sync_pods)], "rule": RC_RULE + SY_L1},
+    "C03": {"module": "Asts.Props.C03", "extra_modules": ["Asts.Props.Glue", "Asts.Props.EditAlgebra", "Asts.Props.EditHistory"], "runs": [rc(proj=proj_deletes), sy(quick=5000, thorough=60000, proj=proj_sync_pods)], "rule": RC_RULE + SY_L1},
     "C04": {"module": "Asts.Props.C04", "extra_modules": ["Asts.Props.Glue2", "Asts.Props.EditAlgebra"], "runs": [rc(proj=proj_creates), sy(quick=5000, thorough=60000, proj=proj_sync_pods)], "rule": RC_RULE + SY_L1},
     "C05": {"module": "Asts.Props.C05", "extra_modules": ["Asts.Props.Glue"], "runs": [rc(proj=proj_create_delete), sy(quick=5000, thorough=60000, proj=proj_sync_pods)], "rule": RC_RULE + SY_L1},
     "C07": {"module": "Asts.Props.C07", "runs": [rc(proj=proj_create_delete), sy(quick=5000, thorough=60000, proj=proj_sync_pods)], "rule": RC_RULE + SY_L1},
